@@ -211,6 +211,12 @@ def run(chk):
     for s, o in list(zip(scns, obss))[:3]:
         chk.sample({"mode": s["mode"], "strategy": s["strategy"], "answers": s["answers"], "plan": [(e["dir"], e["rel"], e["r"]) for e in s["plan"]][:4],
                     "status": o["status"], "report": o["report"][:3]})
+    # the whole-program model (Whole/*.v), on which this property's whole-program theorems rest, against the real command line
+    import whole as _whole
+    import random as _random
+    _ws = {}
+    _whole.whole_stream(chk, _random.Random(chk.seed * 7919 + 3), 60 if chk.tier == "quick" else 2500, _ws)
+    chk.notes["whole_program_tie"] = _ws
     chk.coverage["rule"] = (
         "generated trees x injected plans mixing free, duplicated, pre-existing, chained and cyclic destinations x mode x strategy x scripted "
         "answers through the real tempren.cli.main(); on plans of the clean family (no raising/invalid/escaping entries, no symlink on a "
